@@ -457,7 +457,7 @@ class InProtocolBase(ProtocolMixin):
             tz = pytz.utc
             retval = _parse_datetime_iso_match(match, tz=tz)
             if astz is not None:
-                retval = retval.astimezone(astz)
+                retval = _astimezone(retval, astz, string)
             return retval
 
         if match is None:
@@ -477,7 +477,7 @@ class InProtocolBase(ProtocolMixin):
                 tz = FixedOffset(tz_offset, {})
                 retval = _parse_datetime_iso_match(match, tz=tz)
                 if astz is not None:
-                    retval = retval.astimezone(astz)
+                    retval = _astimezone(retval, astz, string)
                 return retval
 
         if match is None:
@@ -680,6 +680,14 @@ _uuid_deserialize = {
 if six.PY2:
     _uuid_deserialize[None] = lambda s: uuid.UUID(s)
     _uuid_deserialize[('int', long)] = _uuid_deserialize[('int', int)]
+
+
+def _astimezone(value, tz, string):
+    try:
+        return value.astimezone(tz)
+    except OverflowError as e:
+        # the instant is not representable in the requested zone (year 1 / 9999)
+        raise ValidationError(string, "%%r: %s" % str(e).replace("%", "%%"))
 
 
 def _parse_datetime_iso_match(date_match, tz=None):
